@@ -4,6 +4,7 @@ import (
 	"bytes"
 	"errors"
 	"fmt"
+	"io"
 	"log"
 
 	"github.com/jcmturner/gokrb5/v8/crypto"
@@ -92,6 +93,9 @@ func (pac *PACType) Unmarshal(b []byte) (err error) {
 // ProcessPACInfoBuffers processes the PAC Info Buffers.
 // https://msdn.microsoft.com/en-us/library/cc237954.aspx
 func (pac *PACType) ProcessPACInfoBuffers(key types.EncryptionKey, l *log.Logger) error {
+	if l == nil {
+		l = log.New(io.Discard, "", 0)
+	}
 	// The signature buffers are processed and the server signature is verified first, so that the content of the other
 	// buffers is only decoded once it is known to be authentic.
 	err := pac.processSignatureBuffers()
